@@ -6,6 +6,12 @@ k-th WRITE (or READ) request of the session is answered with an SFTP error statu
 ("short"). k == -1 means "every request". Operations: put (local path), putfo (file
 object, optionally a source that returns short local reads), get (local path), getfo,
 and "pwrite" = SFTPFile opened for writing, set_pipelined(True/False), write()s, close().
+Interleaved requests (the application is single-threaded): the progress callback of put / putfo / get / getfo may be
+a callback that issues requests of its own on the same SFTPClient ("cbreq": the i-th invocation issues
+cbreq[i mod len]: stat / lstat / listdir / stat of the transfer's own remote file / open+close of another file /
+nothing), and a pwrite program may issue such requests between its write()s ("between", same alphabet plus
+set_pipelined(False/True) switches).  Whoever waits for its own reply reads the replies queued before it - those of
+the transfer's pipelined writes and prefetched reads included.
 
 Oracle (the statement, nothing more):
   * the call returns  =>  destination bytes == source bytes; put/putfo with confirm return
@@ -35,7 +41,9 @@ LEVEL = "fault_enumeration"
 THOROUGH_WORKERS = 16
 RULE = (
     "cases = (operation put/putfo/get/getfo/pwrite, size 0..1 MiB dense at multiples of 32768 and 8192 +-1, "
-    "confirm, callback, prefetch, max_concurrent_prefetch_requests, short local source reads, fault plan = "
+    "confirm, callback (none | recording | issuing requests of its own on the same client at generated invocations: stat, lstat, listdir, "
+    "stat of the transfer's remote file, open+close of another file), pwrite: such requests and set_pipelined switches between the write()s, "
+    "prefetch, max_concurrent_prefetch_requests, short local source reads, fault plan = "
     "k-th WRITE/READ request (or every request) answered with SFTP error code 1..8 (reads: 2..8) or a short read); "
     "hypothesis-sampled, plus an enumeration of every single failing chunk position x every code for files of 1..N "
     "chunks (N=3 quick, 8 thorough, sharded over the workers). non-trivial = the fault plan was actually hit "
@@ -48,6 +56,11 @@ READ_CODES = [2, 3, 4, 5, 6, 7, 8]
 BOUND_S = 30.0
 
 SIG_DROPPED = ("rejected-write-not-reported", "pipelined-write-status-dropped")
+SIG_CONSUMED = ("rejected-write-not-reported", "reply-read-by-interleaved-request")
+
+# requests a progress callback / the application issues on the same client while a transfer is under way
+CB_KINDS = ["none", "stat", "lstat", "listdir", "statself", "openclose"]
+BETWEEN_KINDS = CB_KINDS + ["setpipe0", "setpipe1"]
 
 
 def _content(seed, size):
@@ -93,6 +106,23 @@ class ShortSource:
 
 
 _counter = [0]
+_scratch_dir = [None]
+
+
+def scratch(ctx):
+    """Directory for the served and local trees: tmpfs when available (every case writes and removes files of up to 1 MiB),
+    else ctx.tmpdir().  Removed at interpreter exit."""
+    if _scratch_dir[0] is None or not os.path.isdir(_scratch_dir[0]):
+        import atexit
+        import tempfile
+
+        shm = "/dev/shm"
+        if os.path.isdir(shm) and os.access(shm, os.W_OK):
+            _scratch_dir[0] = tempfile.mkdtemp(prefix="verif-C29-", dir=shm)
+            atexit.register(shutil.rmtree, _scratch_dir[0], True)
+        else:
+            _scratch_dir[0] = ctx.tmpdir()
+    return _scratch_dir[0]
 
 
 def _norm(case):
@@ -110,6 +140,11 @@ def _norm(case):
         "bufsize": int(case.get("bufsize", -1)),
         "pipelined": bool(case.get("pipelined", True)),
     }
+    # (cases of the first generation of this check carry neither key)
+    if case.get("cbreq"):
+        c["cbreq"] = [str(k) for k in case["cbreq"]]
+    if case.get("between"):
+        c["between"] = [str(k) for k in case["between"]]
     f = case.get("fault")
     if f is not None:
         c["fault"] = [f[0], int(f[1]), f[2], int(f[3])]
@@ -123,14 +158,51 @@ def execute(ctx, case, _attempt=0):
     op = case["op"]
     src = _content(case["seed"], case["size"])
     _counter[0] += 1
-    base = os.path.join(ctx.tmpdir(), "c%d" % _counter[0])
+    base = os.path.join(scratch(ctx), "c%d" % _counter[0])
     root = os.path.join(base, "root")
     local = os.path.join(base, "local")
     os.makedirs(root)
     os.makedirs(local)
     plan = Plan(case["fault"])
     cb_calls = []
-    cb = (lambda a, b: cb_calls.append((a, b))) if case["cb"] else None
+    other = {"n": 0, "kinds": set()}  # requests issued by the callback / between the writes
+    remote_self = "/src" if op in ("get", "getfo") else "/dst"
+    with open(os.path.join(root, "aux"), "wb") as f:
+        f.write(b"aux")
+
+    def issue(kind, fobj=None):
+        """One interleaved request on the transfer's own client (single-threaded: the caller waits for the reply)."""
+        if kind == "none":
+            return
+        if kind == "setpipe0" or kind == "setpipe1":
+            fobj.set_pipelined(kind == "setpipe1")
+            other["kinds"].add(kind)
+            return
+        other["n"] += 1
+        other["kinds"].add(kind)
+        if kind == "stat":
+            client.stat("/")
+        elif kind == "lstat":
+            client.lstat("/aux")
+        elif kind == "listdir":
+            client.listdir("/")
+        elif kind == "statself":
+            client.stat(remote_self)
+        elif kind == "openclose":
+            client.open("/aux", "rb").close()
+        else:
+            raise AssertionError(kind)
+
+    cbreq = case.get("cbreq") or []
+
+    def callback(a, b):
+        i = len(cb_calls)
+        cb_calls.append((a, b))
+        if cbreq:
+            issue(cbreq[i % len(cbreq)])
+
+    cb = callback if (case["cb"] or cbreq) else None
+    between = case.get("between") or []
     env = SftpEnv(root, plan)
     baseline = set(threading.enumerate())
     files = W.track_files(env.client)
@@ -160,10 +232,14 @@ def execute(ctx, case, _attempt=0):
             f.set_pipelined(case["pipelined"])
             try:
                 pos = 0
-                for n in case["chunks"]:
+                for i, n in enumerate(case["chunks"]):
                     f.write(src[pos : pos + n])
                     pos += n
+                    if between:
+                        issue(between[i % len(between)], f)
                 f.write(src[pos:])
+                if between:
+                    issue(between[len(case["chunks"]) % len(between)], f)
             finally:
                 f.close()
             return None
@@ -213,6 +289,15 @@ def execute(ctx, case, _attempt=0):
         classes.append("hit:" + fkind)
     if case["fault"] is not None and case["fault"][2] == "error" and hit:
         classes.append("code:%d" % case["fault"][3])
+    if cbreq:
+        classes.append("callback:issues-requests")
+    elif case["cb"]:
+        classes.append("callback:records")
+    classes.extend("interleaved:" + k for k in sorted(other["kinds"]))
+    if other["n"]:
+        classes.append("interleaved-requests:" + ("callback" if cbreq else "between-writes"))
+        if hit:
+            classes.append("fault-hit-in-a-transfer-with-interleaved-requests")
     ctx.case(case, hit, classes)
 
     try:
@@ -248,13 +333,20 @@ def execute(ctx, case, _attempt=0):
                 env.server_log[-4:],
             )
             if rejected_write:
-                ctx.violation(SIG_DROPPED[0], SIG_DROPPED[1] if case["pipelined"] else "non-pipelined-file", case, detail)
+                if other["n"]:
+                    detail += "; %d other requests (%s) were issued on the same client during the transfer" % (other["n"], ", ".join(sorted(other["kinds"])))
+                    ctx.violation(SIG_CONSUMED[0], SIG_CONSUMED[1], case, detail)
+                else:
+                    ctx.violation(SIG_DROPPED[0], SIG_DROPPED[1] if case["pipelined"] else "non-pipelined-file", case, detail)
             else:
                 ctx.violation("silent-corruption", "%s:%s:prefetch=%s" % (op, fkind, case["prefetch"]), case, detail)
             return
         if op == "pwrite" and rejected_write:
             # same bytes by luck is impossible here (a rejected write leaves a hole), kept for completeness
-            ctx.violation(SIG_DROPPED[0], SIG_DROPPED[1] if case["pipelined"] else "non-pipelined-file", case, "write rejected but close() returned")
+            if other["n"]:
+                ctx.violation(SIG_CONSUMED[0], SIG_CONSUMED[1], case, "write rejected but close() returned")
+            else:
+                ctx.violation(SIG_DROPPED[0], SIG_DROPPED[1] if case["pipelined"] else "non-pipelined-file", case, "write rejected but close() returned")
             return
         if op in ("put", "putfo") and case["confirm"]:
             if getattr(value, "st_size", None) != len(src):
@@ -291,6 +383,16 @@ sizes = st.one_of(
 )
 
 
+_cb_kind = st.sampled_from(CB_KINDS[1:])
+# which invocations issue a request: every one, every other one, only some - and which request
+_cbreq = st.one_of(
+    st.lists(_cb_kind, min_size=1, max_size=1),
+    st.lists(st.sampled_from(CB_KINDS), min_size=1, max_size=4).filter(lambda ks: any(k != "none" for k in ks)),
+    st.builds(lambda k, n: ["none"] * n + [k], _cb_kind, st.integers(1, 3)),
+)
+_between = st.lists(st.sampled_from(BETWEEN_KINDS), min_size=1, max_size=4).filter(lambda ks: any(k != "none" for k in ks))
+
+
 @st.composite
 def case_st(draw):
     op = draw(st.sampled_from(["put", "putfo", "putfo", "get", "getfo", "getfo", "pwrite"]))
@@ -298,6 +400,8 @@ def case_st(draw):
     nreq = (size + CHUNK - 1) // CHUNK
     case = {"op": op, "size": size, "seed": draw(st.integers(0, 7)), "cb": draw(st.booleans())}
     writes = op in ("put", "putfo", "pwrite")
+    if op != "pwrite" and case["cb"] and draw(st.booleans()):
+        case["cbreq"] = draw(_cbreq)
     if writes:
         case["confirm"] = draw(st.booleans())
         if op == "putfo" and draw(st.integers(0, 3)) == 0:
@@ -308,6 +412,10 @@ def case_st(draw):
             case["pipelined"] = draw(st.sampled_from([True, True, False]))
             case["chunks"] = draw(st.lists(st.sampled_from([0, 1, 100, 8191, 8192, 32768, 32769, 70000]), max_size=6))
             nreq = nreq + len(case["chunks"]) + 2
+            if draw(st.booleans()):
+                case["between"] = draw(_between)
+            if sum(case["chunks"]) and draw(st.integers(0, 2)) == 0:
+                size = case["size"] = sum(case["chunks"])  # the write()s cover the file exactly: nothing is written after the last of them
     else:
         case["prefetch"] = draw(st.booleans())
         case["maxreq"] = draw(st.sampled_from([None, None, 1, 2, 3, 64]))
@@ -353,6 +461,19 @@ def enumerated(max_chunks):
                         out.append({"op": "put", "size": size, "seed": n, "confirm": confirm, "fault": ["w", k, "error", code]})
                 out.append({"op": "pwrite", "size": size, "seed": n, "fault": ["w", k, "error", 4], "chunks": [CHUNK] * (n - 1)})
                 out.append({"op": "pwrite", "size": size, "seed": n, "pipelined": False, "fault": ["w", k, "error", 3], "chunks": [CHUNK] * (n - 1)})
+                # the same failing positions in transfers whose progress callback / application issues requests of its own
+                kinds = CB_KINDS[1:]
+                kind = kinds[(n + k) % len(kinds)]
+                for confirm in (True, False):
+                    out.append({"op": "put", "size": size, "seed": n, "confirm": confirm, "cb": True, "cbreq": [kind], "fault": ["w", k, "error", 4]})
+                out.append({"op": "putfo", "size": size, "seed": n, "confirm": False, "cb": True, "cbreq": ["none", kind], "fault": ["w", k, "error", 3]})
+                out.append({"op": "pwrite", "size": size, "seed": n, "fault": ["w", k, "error", 4], "chunks": [CHUNK] * (n - 1), "between": [kind]})
+                out.append({"op": "pwrite", "size": size, "seed": n, "fault": ["w", k, "error", 4], "chunks": [CHUNK] * (n - 1), "between": [kind, "setpipe0"]})
+                # ... every reply read by another request after the last write(), then pipelining switched off, then close()
+                if size == n * CHUNK:
+                    out.append(
+                        {"op": "pwrite", "size": size, "seed": n, "fault": ["w", k, "error", 4], "chunks": [CHUNK] * n, "between": ["none"] * (n - 1) + [kind, "setpipe0"]}
+                    )
             # reads: n data reads (+ the EOF probe, which carries no data)
             for k in range(n):
                 for prefetch in (True, False):
@@ -361,6 +482,9 @@ def enumerated(max_chunks):
                     for short in (1, 8192):
                         out.append({"op": "getfo", "size": size, "seed": n, "prefetch": prefetch, "fault": ["r", k, "short", short]})
                 out.append({"op": "get", "size": size, "seed": n, "prefetch": True, "maxreq": 2, "fault": ["r", k, "error", 4]})
+                kind = CB_KINDS[1:][(n + k) % (len(CB_KINDS) - 1)]
+                out.append({"op": "getfo", "size": size, "seed": n, "prefetch": True, "cb": True, "cbreq": [kind], "fault": ["r", k, "error", 4]})
+                out.append({"op": "getfo", "size": size, "seed": n, "prefetch": True, "maxreq": 1, "cb": True, "cbreq": [kind], "fault": ["r", k, "short", 8192]})
     return out
 
 
